@@ -17,6 +17,11 @@ extracted Coq model (coq/model/Frozen.v):
           The model answers the same script: which steps raise, after which
           steps the observation differs from the initial one (with the current
           collections.py: none), what the constructed content is.
+          Already-frozen ImmutableDict arguments (metadata, branches, ImmutableDict(idict)) are
+          observed BEFORE the construction and after every step (content, ==, hash, usable
+          as dict key): they must never change; copy_pop(present / absent key) steps on
+          ImmutableDict objects; the object is also built a second time from the very same
+          argument objects and both must be equal.
   twins   two objects from equal / permuted / differing arguments: ==, hashable,
           equal hashes, usable as dict key and set member.  The model says
           whether they are equal and whether their hash keys coincide.
@@ -42,11 +47,16 @@ THEOREMS = [
     "C11_no_alias_refuted_old", "C11_no_alias_refuted_old_release",
     "C11_no_alias_refuted_unchecked_field", "C11_nested_shared_example",
     "C11_no_alias_satisfiable", "C11_eq_hash_satisfiable",
+    "C11_frozen_mapping_never_changes", "C11_frozen_cell_never_written", "C11_frozen_mapping_satisfiable",
+    "C11_copy_pop_refuted_inplace",
 ]
 RULE = ("for each attrs class of swh.model.model, each SWHID class and ImmutableDict: generated valid field values; "
         "every dict/list-typed argument is a fresh container kept by the harness; script = setattr+delattr on every "
         "attribute, item assignment/deletion, then 1..6 caller mutations on every kept container (constructor and "
-        "from_dict routes); twins = equal / eq=False-field-differs / one-field-differs / permuted-insertion-order "
+        "from_dict routes); ~1/3 of the mapping arguments are ALREADY FROZEN ImmutableDicts observed before the construction and "
+        "after every step; copy_pop(present/absent key) steps on ImmutableDict objects; Revision with legacy metadata "
+        "(fresh dict or frozen) holding extra_headers; every object built twice from the very same argument objects; "
+        "twins = equal / same-objects / eq=False-field-differs / one-field-differs / permuted-insertion-order "
         "arguments.  non-trivial = at least one kept container argument is mutated after construction, or twins "
         "differing only in insertion order / eq=False fields; distinct = distinct case")
 TRUSTED = [
@@ -101,8 +111,9 @@ def _enum(cls_name, name):
     raise KeyError(cls_name)
 
 
-def build(spec, kept):
-    """spec -> Python value; every dict/list created is appended to kept (creation order, pre-order)"""
+def build(spec, kept, frozen=None):
+    """spec -> Python value; every dict/list created is appended to kept (creation order, pre-order);
+    every ImmutableDict created for an ["I", ...] node is appended to frozen (same order)"""
     if spec is None:
         return None
     t = spec[0]
@@ -119,25 +130,32 @@ def build(spec, kept):
     if t == "dt":
         return datetime.datetime.fromisoformat(spec[1])
     if t == "t":
-        return tuple(build(x, kept) for x in spec[1])
+        return tuple(build(x, kept, frozen) for x in spec[1])
     if t == "l":
         lst = []
         kept.append(lst)
         for x in spec[1]:
-            lst.append(build(x, kept))
+            lst.append(build(x, kept, frozen))
         return lst
     if t == "d":
         d = {}
         kept.append(d)
         for k, v in spec[1]:
-            d[build(k, kept)] = build(v, kept)
+            d[build(k, kept, frozen)] = build(v, kept, frozen)
         return d
     if t == "I":
         _, ImmutableDict = _classes()
-        return ImmutableDict([(build(k, kept), build(v, kept)) for k, v in spec[1]])
+        slot = None
+        if frozen is not None:
+            slot = len(frozen)
+            frozen.append(None)
+        x = ImmutableDict([(build(k, kept, frozen), build(v, kept, frozen)) for k, v in spec[1]])
+        if slot is not None:
+            frozen[slot] = x
+        return x
     if t == "o":
         classes, _ = _classes()
-        return classes[spec[1]](**{f: build(v, kept) for f, v in spec[2]})
+        return classes[spec[1]](**{f: build(v, kept, frozen) for f, v in spec[2]})
     raise ValueError(spec)
 
 
@@ -168,6 +186,7 @@ class Enc:
     def __init__(self):
         self.cells = []
         self.kept_handles = []
+        self.frozen_vals = []       # "I<h>" of every already-frozen mapping, in build() order
 
     def val(self, spec):
         if spec is None:
@@ -188,6 +207,8 @@ class Enc:
             self.cells.append(None)
             if t == "d":
                 self.kept_handles.append(h)
+            else:
+                self.frozen_vals.append("I%d" % h)
             items = []
             for k, v in spec[1]:
                 items.append(spec_atom_hex(k) + "=" + self.val(v))
@@ -307,7 +328,7 @@ def rmeta(rng, hashable=False):
     if r < 0.15:
         return None
     items = rmeta_items(rng, hashable)
-    return ["I", items] if r < 0.3 else ["d", items]
+    return ["I", items] if r < 0.45 else ["d", items]      # ~1/3 already frozen
 
 
 def g_person(rng):
@@ -355,7 +376,7 @@ def g_snapshot(rng, hashable=False):
     n = rng.choice([0, 1, 2, 3, 5])
     names = rng.sample([b"HEAD", b"refs/heads/main", b"refs/tags/v1", b"a", b"b", b"\xff", b"", b"zz"], n)
     items = [[["b", k.hex()], (None if rng.random() < 0.2 else g_branch(rng))] for k in names]
-    kind = "I" if rng.random() < 0.2 else "d"
+    kind = "I" if rng.random() < 0.35 else "d"
     return ["o", "Snapshot", [["branches", [kind, items]], ["id", rid(rng)]]]
 
 
@@ -374,9 +395,14 @@ def g_revision(rng, hashable=False):
     r = rng.random()
     xh = ["l", xh] if r < 0.6 else (["t", xh] if r < 0.8 else ["l", [["l", p[1]] for p in xh]])
     meta = rmeta(rng, hashable)
-    if meta is not None and meta[0] == "d" and rng.random() < 0.15 and not any(k == ["s", "extra_headers"] for k, _ in meta[1]):
-        # legacy: extra_headers inside metadata (Revision.__attrs_post_init__ pops them)
-        meta = ["d", meta[1] + [[["s", "extra_headers"], ["l", [["l", [rb(rng, 2), rb(rng, 2)]]]]]]]
+    if meta is not None and rng.random() < 0.3 and not any(k == ["s", "extra_headers"] for k, _ in meta[1]):
+        # legacy: extra_headers inside metadata (Revision.__attrs_post_init__ calls copy_pop on it),
+        # the metadata being a fresh dict or an ALREADY FROZEN ImmutableDict of the caller
+        legacy = [["s", "extra_headers"], ["l" if meta[0] == "d" else "t",
+                                           [["l" if meta[0] == "d" else "t", [rb(rng, 2), rb(rng, 2)]]]]]
+        items = meta[1] + [legacy]
+        rng.shuffle(items)
+        meta = [meta[0], items]
         xh = ["t", []]
     return ["o", "Revision", [["message", opt(rng, rbytes)], ["author", author], ["committer", committer],
                               ["date", None if author is None else opt(rng, g_tstz)],
@@ -594,17 +620,25 @@ def idict_case(rng):
     r = rng.random()
     if r < 0.5:
         arg = ["d", items]
-    elif r < 0.75:
+    elif r < 0.65:
         arg = ["l", [["t", [k, v]] for k, v in items]]
     elif r < 0.9:
-        arg = ["I", items]
+        arg = ["I", items]          # ImmutableDict(idict): shares the cell of an already frozen mapping
     else:
         arg = ["t", [["t", [k, v]] for k, v in items]]
     steps = [["setitem", ["s", "a"]], ["delitem", ["s", "a"]], ["setattr", "data"], ["delattr", "data"]]
     for k, _ in items[:2]:
         steps += [["setitem", k], ["delitem", k]]
+    # copy_pop with present and absent keys; the receiver (and the mapping it was built from) is observed again
+    for k, _ in items[:3]:
+        steps.append(["copy_pop", k])
+    steps.append(["copy_pop", ["s", "no-such-key"]])
+    if items:
+        steps.append(["copy_pop", items[-1][0]])
     if arg[0] in ("d", "l"):
         steps += container_steps(rng, arg if arg[0] == "d" else arg, 0, 0)
+        if items:
+            steps.append(["copy_pop", items[0][0]])
     return {"kind": "script", "cls": "ImmutableDict", "route": "ctor", "args": [["data", arg]], "steps": steps}
 
 
@@ -645,6 +679,9 @@ def twins_cases(rng, cname):
     a = gen_obj(rng, cname, hashable=rng.random() < 0.8)
     flags = eq_flags(cname)
     out.append({"kind": "twins", "cls": cname, "variation": "same", "args1": a[2], "args2": a[2]})
+    # the SAME argument objects (in particular the same already-frozen mappings) used twice
+    a2 = gen_obj(rng, cname, hashable=rng.random() < 0.8)
+    out.append({"kind": "twins", "cls": cname, "variation": "same-objects", "args1": a2[2], "args2": a2[2]})
     b = gen_obj(rng, cname, hashable=True)
     # differs in the eq=False fields only
     noneq = [f for f, e in flags.items() if not e]
@@ -716,14 +753,15 @@ def gen(rng, tier):
 
 # ------------------------------------------------------------------ classification
 def _mutated_containers(c):
-    return sum(1 for s in c.get("steps", []) if s[0] in ("set", "del", "clear", "app", "idx", "pop"))
+    return sum(1 for s in c.get("steps", []) if s[0] in ("set", "del", "clear", "app", "idx", "pop", "copy_pop"))
 
 
 def nontrivial(c):
     if c["kind"] == "script":
         return _mutated_containers(c) >= 1
     if c["kind"] == "twins":
-        return c["variation"] in ("noneq-fields", "nested-noneq", "permuted", "dict-vs-idict")
+        return c["variation"] in ("noneq-fields", "nested-noneq", "permuted", "dict-vs-idict") or (
+            c["variation"] == "same-objects" and any(v is not None and v[0] in ("I", "d") for _, v in c["args1"]))
     if c["kind"] == "perms":
         return len(c["items"]) >= 2
     return False
@@ -752,16 +790,39 @@ def _raises(f):
     return None
 
 
-def _construct(cname, route, fields, kept):
+def _build_args(cname, route, fields, kept, frozen=None):
+    if cname == "ImmutableDict":
+        return ("one", build(fields[0][1], kept, frozen))
+    if route == "fromdict":
+        return ("one", build(fields[0], kept, frozen))
+    return ("kw", {f: build(v, kept, frozen) for f, v in fields})
+
+
+def _make(cname, route, built):
     classes, ImmutableDict = _classes()
     if cname == "ImmutableDict":
-        return ImmutableDict(build(fields[0][1], kept))
+        return ImmutableDict(built[1])
     if route == "fromdict":
-        return classes[cname].from_dict(build(fields[0], kept))
-    return classes[cname](**{f: build(v, kept) for f, v in fields})
+        return classes[cname].from_dict(built[1])
+    return classes[cname](**built[1])
 
 
-def snapshot(obj, twin):
+def _construct(cname, route, fields, kept):
+    return _make(cname, route, _build_args(cname, route, fields, kept))
+
+
+def fsnap(x, copy):
+    """observation of an already-frozen mapping the caller holds"""
+    snap = {"content": render(x), "eq_copy": bool(x == copy) and bool(copy == x) and not (x != copy), "len": len(x)}
+    try:
+        snap["hash"] = hash(x)
+        snap["as_key"] = ({copy: 1}.get(x) == 1) and (x in {copy})
+    except TypeError:
+        snap["hash"] = "U"
+    return snap
+
+
+def snapshot(obj, twin, same=None, frozen=(), copies=()):
     snap = {"content": render(obj)}
     if hasattr(obj, "to_dict"):
         try:
@@ -770,6 +831,7 @@ def snapshot(obj, twin):
             snap["to_dict"] = "raises " + type(e).__name__
     try:
         snap["hash"] = hash(obj)
+        snap["as_key"] = ({twin: 1}.get(obj) == 1) and (obj in {twin})
     except TypeError:
         snap["hash"] = "U"
     if hasattr(obj, "id"):
@@ -782,21 +844,32 @@ def snapshot(obj, twin):
     if hasattr(obj, "__str__") and type(obj).__name__.endswith("SWHID"):
         snap["str"] = str(obj)
     snap["eq_twin"] = bool(obj == twin) and bool(twin == obj) and not (obj != twin)
+    if same is not None:
+        snap["eq_same_args"] = bool(obj == same) and bool(same == obj) and not (obj != same)
+    snap["frozen_args"] = [fsnap(x, cp) for x, cp in zip(frozen, copies)]
     return snap
 
 
 def impl_script(c):
-    kept, kept2 = [], []
+    _, ImmutableDict = _classes()
+    kept, kept2, frozen = [], [], []
     try:
-        obj = _construct(c["cls"], c["route"], c["args"], kept)
+        built = _build_args(c["cls"], c["route"], c["args"], kept, frozen)
+        copies = [ImmutableDict(dict(x.items())) for x in frozen]
+        frozen_before = [fsnap(x, cp) for x, cp in zip(frozen, copies)]
+        obj = _make(c["cls"], c["route"], built)
     except Exception as e:
         return {"error": "raises", "exc": core.exc_class(e)}
+    same = _make(c["cls"], c["route"], built)        # the SAME argument objects, a second time
     twin = _construct(c["cls"], c["route"], c["args"], kept2)
-    snap0 = snapshot(obj, twin)
-    res = {"snap0": snap0, "steps": []}
+    snap0 = snapshot(obj, twin, same, frozen, copies)
+    res = {"snap0": snap0, "steps": [],
+           "frozen_changed_by_construction": [i for i, (a, b) in enumerate(zip(frozen_before, snap0["frozen_args"])) if a != b]}
+    snap = snap0
     for st in c["steps"]:
         op = st[0]
         raised = None
+        extra = {}
         if op == "setattr":
             raised = _raises(lambda: setattr(obj, st[1], None))
         elif op == "delattr":
@@ -807,6 +880,15 @@ def impl_script(c):
         elif op == "delitem":
             key = build(st[1], [])
             raised = _raises(lambda: _item_del(obj, key))
+        elif op == "copy_pop":
+            key = build(st[1], [])
+            before = dict(obj.items())
+            try:
+                val, new = obj.copy_pop(key)
+                extra["ret_ok"] = bool(isinstance(new, ImmutableDict) and val == before.get(key)
+                                       and dict(new.items()) == {k: v for k, v in before.items() if k != key})
+            except Exception as e:
+                raised = type(e).__name__
         else:
             target = kept[st[1]]
             try:
@@ -824,9 +906,10 @@ def impl_script(c):
                     target.pop()
             except (KeyError, IndexError):
                 pass
-        snap = snapshot(obj, twin)
+        snap = snapshot(obj, twin, same, frozen, copies)
         changed = sorted(k for k in set(snap) | set(snap0) if snap.get(k) != snap0.get(k))
-        res["steps"].append({"op": op, "raised": raised, "changed": changed})
+        res["steps"].append(dict({"op": op, "raised": raised, "changed": changed}, **extra))
+    res["frozen_changed"] = [a != b for a, b in zip(frozen_before, snap["frozen_args"])]
     return res
 
 
@@ -840,8 +923,13 @@ def _item_del(obj, key):
 
 def impl_twins(c):
     try:
-        x = _construct(c["cls"], "ctor", c["args1"], [])
-        y = _construct(c["cls"], "ctor", c["args2"], [])
+        if c["variation"] == "same-objects":
+            built = _build_args(c["cls"], "ctor", c["args1"], [], [])
+            x = _make(c["cls"], "ctor", built)
+            y = _make(c["cls"], "ctor", built)
+        else:
+            x = _construct(c["cls"], "ctor", c["args1"], [])
+            y = _construct(c["cls"], "ctor", c["args2"], [])
     except Exception as e:
         return {"error": "raises", "exc": core.exc_class(e)}
     res = {"eq12": bool(x == y), "eq21": bool(y == x), "ne12": bool(x != y)}
@@ -899,6 +987,8 @@ def enc_steps(c, enc):
             out.append("%s:%s" % (op, st[1].encode().hex()))
         elif op in ("setitem", "delitem"):
             out.append("%s:%s" % (op, spec_atom_hex(st[1])))
+        elif op == "copy_pop":
+            out.append("copypop:%s" % spec_atom_hex(st[1]))
         else:
             h = enc.kept_handles[st[1]]
             if op == "set":
@@ -927,12 +1017,13 @@ def requests(c):
         enc = Enc()
         args = enc_args(c["args"], enc, c["route"])
         steps = enc_steps(c, enc)
-        return ["run new %d %s %s %s %s %s" % (FUEL, "fromdict" if c["route"] == "fromdict" else "ctor",
-                                                c["cls"].encode().hex(), enc.store(), args, steps)]
+        watch = "(" + ";".join(enc.frozen_vals) + ")"
+        return ["run new %d %s %s %s %s %s %s" % (FUEL, "fromdict" if c["route"] == "fromdict" else "ctor",
+                                                   c["cls"].encode().hex(), enc.store(), args, steps, watch)]
     if c["kind"] == "twins":
         enc = Enc()
         a1 = enc_args(c["args1"], enc)
-        a2 = enc_args(c["args2"], enc)
+        a2 = a1 if c["variation"] == "same-objects" else enc_args(c["args2"], enc)   # same handles = same objects
         return ["twins new %d %s %s %s %s" % (FUEL, c["cls"].encode().hex(), enc.store(), a1, a2)]
     if c["kind"] == "perms":
         reqs = []
@@ -951,12 +1042,18 @@ def model(c, resp):
         if r[0] != "ok":
             return {"error": "raises", "raw": resp[0]}
         obs0 = r[1]
-        steps = []
+        steps, wb, wa = [], [], []
         for x in r[2:]:
-            e, o = x.split("/", 1)
-            steps.append({"raised": None if e == "-" else e, "changed": o != obs0})
+            if x.startswith("wb:"):
+                wb.append(x[3:])
+            elif x.startswith("wa:"):
+                wa.append(x[3:])
+            else:
+                e, o = x.split("/", 1)
+                steps.append({"raised": None if e == "-" else e, "changed": o != obs0})
         content, todict, key, idok = split_top(obs0, ",")
-        return {"content": content, "hashkey": key, "id_ok": idok == "1", "steps": steps}
+        return {"content": content, "hashkey": key, "id_ok": idok == "1", "steps": steps,
+                "watch_changed": [a != b for a, b in zip(wb, wa)]}
     if c["kind"] == "twins":
         r = resp[0].split(" ")
         if r[0] != "ok":
@@ -984,11 +1081,25 @@ def oracle(c, ires, mres):
             return None           # construction refused: nothing was built
         if not ires["snap0"]["eq_twin"]:
             return "two %s objects built from the same arguments are not equal" % c["cls"]
+        if not ires["snap0"].get("eq_same_args", True):
+            return ("two %s objects built one after the other from the very same argument objects are not equal"
+                    % c["cls"])
+        if ires["frozen_changed_by_construction"]:
+            return ("building a %s (%s) changed an already frozen ImmutableDict that was passed as argument"
+                    % (c["cls"], c["route"]))
         for st, r in zip(c["steps"], ires["steps"]):
             if st[0] in CALLER_OPS:
                 if r["changed"]:
                     return ("mutating a container passed to %s (%s) after construction changed the object's %s (step %r)"
                             % (c["cls"], c["route"], ",".join(r["changed"]), st))
+            elif st[0] == "copy_pop":
+                if r["raised"] is not None:
+                    return "copy_pop(%r) raised %s" % (st[1], r["raised"])
+                if r["changed"]:
+                    return ("copy_pop(%r) changed a frozen mapping that already existed: %s"
+                            % (st[1], ",".join(r["changed"])))
+                if not r.get("ret_ok"):
+                    return "copy_pop(%r) did not return (value or None, the mapping without the key)" % (st[1],)
             else:
                 if st[0] in ("setitem", "delitem") and c["cls"] != "ImmutableDict" and r["raised"] is None:
                     return "%s on a %s object did not raise" % (st[0], c["cls"])
@@ -1002,14 +1113,14 @@ def oracle(c, ires, mres):
     if c["kind"] == "twins":
         if ires["eq12"] != ires["eq21"] or ires["eq12"] == ires["ne12"]:
             return "== is not symmetric / != is not its negation"
-        if c["variation"] in ("same", "noneq-fields", "nested-noneq", "permuted", "dict-vs-idict") and not ires["eq12"]:
+        if c["variation"] in ("same", "same-objects", "noneq-fields", "nested-noneq", "permuted", "dict-vs-idict") and not ires["eq12"]:
             return "objects built from equal arguments (%s) are not equal" % c["variation"]
         if ires["eq12"] and ires["h1"] != "U" and ires["h2"] != "U":
             if ires["h1"] != ires["h2"]:
                 return "equal objects have different hashes"
             if not ires.get("dict_key") or not ires.get("set_member") or ires.get("set_size") != 1:
                 return "equal objects do not act as the same dict key / set member"
-        if ires["eq12"] and c["variation"] == "same" and (ires["h1"] == "U") != (ires["h2"] == "U"):
+        if ires["eq12"] and c["variation"] in ("same", "same-objects") and (ires["h1"] == "U") != (ires["h2"] == "U"):
             return "objects built from the same arguments: one hashable, one not"
         return None
     if c["kind"] == "perms":
@@ -1050,6 +1161,9 @@ def compare(c, ires, mres):
                 return "id == compute_hash(): model %s implementation %s" % (mres["id_ok"], ires["snap0"]["id_ok"])
         if len(mres["steps"]) != len(ires["steps"]):
             return "step count differs"
+        if mres["watch_changed"] != ires["frozen_changed"]:
+            return ("already frozen arguments after the script: model changed=%s implementation changed=%s"
+                    % (mres["watch_changed"], ires["frozen_changed"]))
         for st, m, r in zip(c["steps"], mres["steps"], ires["steps"]):
             if (m["raised"] is not None) != (r["raised"] is not None):
                 return "step %r: model raises=%s implementation raises=%s" % (st, m["raised"], r["raised"])
